@@ -1343,6 +1343,10 @@ class Interp:
             from .contract_apply import apply_contract
             self.contract_calls.add(qn)
             return apply_contract(self, con, f, args, kwargs)
+        active = self.__dict__.setdefault("_active_funcs", [])
+        if getattr(self, "frame_only", False) and active.count(qn) >= 2:
+            self.assumptions_used.add(f"recursive function {qn} without a contract: recursion cut after two levels (frame-only)")
+            return Z(V.fresh("rec_call"))
         if self.depth > MAX_DEPTH:
             raise Unsupported(f"call depth exceeded at {qn} (recursion without a contract)")
         self.inlined.add(qn)
@@ -1358,6 +1362,7 @@ class Interp:
         if node.args.args:
             fr.func_first_arg = node.args.args[0].arg
         self.depth += 1
+        active.append(qn)
         try:
             if isinstance(node, ast.Lambda):
                 return self.eval(node.body, fr)
@@ -1366,6 +1371,7 @@ class Interp:
             return r.value
         finally:
             self.depth -= 1
+            active.pop()
         return C(None)
 
     def defining_class(self, f):
